@@ -21,7 +21,8 @@ RULE = ('programs of 1-4 transformations {reify_edges, dereify_edges, reify_attr
         'indicate_branches (at most once)} in the command-line order and in other orders, applied '
         'to five graph classes: hand-built WF-G without markers (explicit top), decoded, decoded '
         'with another top, decoded then shuffled (stale markers), edited (DESIGN 3.7: marker entries '
-        'deleted, triples/nodes added or removed); models default, AMR (incl. :subset/:superset and '
+        'deleted, triples/nodes added or removed), and texts with explicit reified relations '
+        '(decode(encode(reify_edges(g), top=any))) re-topped to any variable; models default, AMR (incl. :subset/:superset and '
         'dereifiable concepts), mini-AMR, random tables. Every intermediate result is checked. '
         'Non-trivial: the program changed the graph at least once.')
 ANCHORS = ['penman.transform:reify_edges', 'penman.transform:dereify_edges',
@@ -31,7 +32,8 @@ ANCHORS = ['penman.transform:reify_edges', 'penman.transform:dereify_edges',
            'penman.layout:node_contexts']
 PROBES = {'C17': 6}
 MIN_EVAL = {'quick': 2000, 'thorough': 60000}
-REQUIRED_COUNTERS = ['class:hand-built', 'class:decoded', 'class:edited', 'class:shuffled',
+REQUIRED_COUNTERS = ['class:hand-built', 'class:decoded', 'class:edited', 'class:shuffled', 'class:reified-text',
+                     'dereified_something',
                      'op:re', 'op:de', 'op:ra', 'op:ib', 'changed']
 MODELS_R = ['default', 'amr', 'amr', 'mini', 'rand1', 'rand2', 'amr', 'rand5']
 R_AMR = [':ARG0', ':ARG1', ':ARG2', ':mod', ':domain', ':op1', ':op2', ':polarity', ':quant',
@@ -45,7 +47,7 @@ CLI_ORDER = ['re', 'de', 'ra', 'ib']
 
 def cases(ctx):
     q = ctx.tier == 'quick'
-    n = 2500 if q else 50000
+    n = 3000 if q else 50000
     for i in range(n):
         if not ctx.time_left():
             break
@@ -68,8 +70,36 @@ def build(ctx, p):
     rng = ctx.rng('rand', p['i'])
     mname = MODELS_R[p['i'] % len(MODELS_R)]
     _, model, rm, _ = M.get(mname)
-    kind = p['i'] % 5
-    if kind == 0:
+    kind = p['i'] % 6
+    if kind == 5:
+        # explicit reified relations in the *text* (so that dereify_edges has work to do),
+        # written from any node - also from the reified node itself - and then re-topped
+        node = T.rand_tree(rng, rm, roles=R_AMR, concepts=CONCEPTS, p_aln=0.2)
+        if not _trees.wellformed(node, rm):
+            return None
+        ok, g0 = ctx.call(layout.interpret, Tree(node), model, clause='pre-interpret')
+        if not ok:
+            return None
+        ok, r = ctx.call(transform.reify_edges, g0, model, clause='pre-reify')
+        if not ok:
+            return None
+        vs0 = sorted(r.variables())
+        ok, tr0 = ctx.call(layout.configure, r, top=rng.choice(vs0), model=model, clause='pre-configure')
+        if not ok:
+            return None
+        if rng.random() < .6:
+            # any branch order a user may have written
+            import random as _random
+            _random.seed(p['i'])
+            layout.rearrange(tr0, key=model.random_order)
+        s = penman.format(tr0)
+        ok, g = ctx.call(penman.decode, s, model=model, clause='pre-decode')
+        if not ok:
+            return None
+        if rng.random() < .7:
+            g.top = rng.choice(sorted(g.variables()))
+        cls = 'reified-text'
+    elif kind == 0:
         vs, triples = G.rand_graph(rng, rm, bases=R_AMR, concepts=CONCEPTS + [None, 7])
         rng.shuffle(triples)
         g = Graph(triples, top=rng.choice(vs))
@@ -95,7 +125,9 @@ def build(ctx, p):
             if rng.random() < .5:
                 g.top = rng.choice(sorted(g.variables()))
             cls = 'edited'
-    if rng.random() < 0.35:
+    if cls == 'reified-text' and rng.random() < 0.6:
+        prog = ['de'] + [op for op in ('ib', 'ra', 're') if rng.random() < 0.6]
+    elif rng.random() < 0.35:
         prog = [op for op in CLI_ORDER if rng.random() < 0.6] or ['re']
     else:
         ops = OPS[:]
@@ -132,6 +164,8 @@ def oracle(ctx, kind, p):
             break
         if nxt.triples != cur.triples:
             changed = True
+            if op == 'de':
+                ctx.count('dereified_something')
         if nxt.top != before_top:
             ctx.fail(f'{op}:top-changed', mech=op, detail=dict(det, got=nxt.top, want=before_top))
         wf = G.wellformed(nxt)
@@ -155,8 +189,15 @@ def oracle(ctx, kind, p):
         if op == 'ib':
             tr_ = rm.top_role
             pushes = 0
+            cvars = cur.variables()
             for t in cur.triples:
-                if any(isinstance(e, Push) and e.variable in (t[0], t[2]) for e in cur.epidata.get(t, [])):
+                p0 = next((e for e in cur.epidata.get(t, []) if isinstance(e, Push)), None)
+                if p0 is None:
+                    continue
+                # the branch opens a nested node when the pushed variable is the target, or the
+                # source of an *edge* (written inverted from its target's node); a Push(source)
+                # on an attribute cannot be written and opens nothing
+                if p0.variable == t[2] or (p0.variable == t[0] and t[2] in cvars):
                     pushes += 1
             added = len(nxt.triples) - len(cur.triples)
             if added != pushes:
